@@ -228,6 +228,11 @@ def strict_api_refusals(run, rng, dist):
                     c = Component(datatype=br[1][2], version=v, validation_level=S.STRICT)
                     f.add(c)
                 accepted('second-component-in-base-field', two_components, True, base_field=br[0], datatype=br[1][2])
+            # the one unnamed field STRICT lets be constructed (datatype 'varies') is still an unknown child for a segment
+            def unnamed_varies_field():
+                seg = Segment(sname, version=v, validation_level=S.STRICT)
+                seg.add(Field(datatype='varies', version=v, validation_level=S.STRICT))
+            accepted('unknown-child', unnamed_varies_field, True, child='<unnamed Field of type varies>')
             # over-long / invalid base values
             def too_long(dt):
                 try:
@@ -240,6 +245,50 @@ def strict_api_refusals(run, rng, dist):
                 if dt in lib.get_base_datatypes() and bad is not None:
                     accepted('invalid-value', lambda dt=dt, bad=bad: SubComponent(datatype=dt, value=bad, version=v,
                              validation_level=S.STRICT), True, datatype=dt, value=bad[:20])
+
+
+def value_history_probe(run, rng, dist):
+    """What STRICT accepts is a function of (datatype, text), not of what was parsed before: the same digits arrive
+    first for one date/time datatype and then for another (DT/DTM year or year-month vs TM hours-minutes), in both
+    orders, with literals nobody has parsed yet in this process."""
+    from hl7apy.factories import datatype_factory
+
+    def obs(dt, lit, v, lvl):
+        try:
+            o = datatype_factory(dt, lit, v, lvl)
+            return ('ok', type(o).__name__, o.to_er7())
+        except Exception as ex:  # noqa
+            return ('exc', type(ex).__name__)
+
+    def tm_ok(lit):      # HH[MM[SS]]
+        return len(lit) in (2, 4, 6) and int(lit[:2]) < 24 and all(int(lit[i:i + 2]) < 60 for i in range(2, len(lit), 2))
+
+    def dt_ok(lit):      # YYYY[MM]
+        return len(lit) == 4 or (len(lit) == 6 and 1 <= int(lit[4:]) <= 12)
+
+    for v in ('2.3', '2.5', '2.7'):
+        bdt = hl7apy.load_library(v).get_base_datatypes()
+        for k in range(12):
+            n = rng.choice((4, 6))
+            lit = ''.join(rng.choice('0123456789') for _ in range(n))
+            if lit[0] == '0':
+                lit = '1' + lit[1:]
+            if k % 3 == 0:      # hours 24..29: a year for DT, no time for TM
+                lit = '2' + rng.choice('456789') + lit[2:]
+            dates = [d for d in ('DT', 'DTM') if d in bdt]
+            order = (dates + ['TM']) if k % 2 == 0 else (['TM'] + dates)
+            for dt in order:
+                dist['value_history_probes'] = dist.get('value_history_probes', 0) + 1
+                want = tm_ok(lit) if dt == 'TM' else dt_ok(lit)
+                got = obs(dt, lit, v, S.STRICT)
+                if want and got != ('ok', dt, lit):
+                    run.fail('strict-value-depends-on-history', 'a valid date/time literal is refused or re-written after the same '
+                             'digits were parsed for another datatype', version=v, datatype=dt, value=lit, order=order,
+                             observed=list(got), segment=None)
+                elif not want and got[0] == 'ok':
+                    run.fail('strict-admits-invalid-value', 'STRICT accepts an invalid date/time literal after the same digits '
+                             'were parsed for another datatype', version=v, datatype=dt, value=lit, order=order,
+                             observed=list(got), what='invalid-value', segment=None)
 
 
 def report(el):
@@ -311,6 +360,7 @@ def main(argv=None):
                              z_name_outside_field_regex=(name.startswith('Z') and __import__('re').match(
                                  r'^z[a-z1-9]{2}$', name, __import__('re').I) is None))
     strict_api_refusals(run, rng, dist)
+    value_history_probe(run, rng, dist)
     run.log('segments: %s, %d failures' % (dist, len(run.failures)))
     # ---- messages
     nmsg = 10 if not run.thorough else 60
